@@ -144,7 +144,7 @@ def run(tier):
         hist = []
         for a in names:
             hist.append(("fresh_machine", None, a))
-        for a in names[:3]:
+        for a in names[:3] + ["ms", "val_sfx", "cbca_val"]:
             hist.append(("same_machine_again", a, a))
         for a in ("conf", "mfi", "ms"):
             hist.append(("same_cfg_dict_again", a, a))
